@@ -23,7 +23,7 @@ try:
         ap = subprocess.run(["git", "-C", WT, "apply", os.path.join(d, "patch.diff")], stdout=subprocess.PIPE, stderr=subprocess.STDOUT, text=True)
         res["patch_applies"] = ap.returncode == 0
         if ap.returncode == 0:
-            t = subprocess.run(["/tmp/mutkit/run_tests.py", WT], stdout=subprocess.PIPE, stderr=subprocess.STDOUT, text=True, timeout=900)
+            t = subprocess.run([os.path.join(VERIF, "tools", "run_pinned_tests.py"), WT], stdout=subprocess.PIPE, stderr=subprocess.STDOUT, text=True, timeout=900)
             res["pinned_tests_pass_with_change"] = t.returncode == 0
             w = subprocess.run(["/venv/bin/python", demo], cwd=WT, env=env, stdout=subprocess.PIPE, stderr=subprocess.STDOUT, text=True, timeout=900)
             res["demo_with_change_exit"] = w.returncode
